@@ -1,4 +1,4 @@
-// VERIF: lib rc quick_shards=1
+// VERIF: lib rc quick_shards=1 fuzz=options_random_part8
 // C03 - parser shapes, part 8: sub-commands that mix positional arguments with options (the
 // sub-command's own option names decide which tokens are option values), nested wrappers.
 #include "c03_options.hpp"
